@@ -7,6 +7,7 @@ import SonicSpec.Model.EncDec
 import SonicSpec.Proofs.EncCompatInt
 import SonicSpec.Proofs.EncUnq
 import SonicSpec.Proofs.EncWF
+import SonicSpec.Proofs.EncOrder
 namespace SonicSpec.Enc
 open SonicSpec SonicSpec.Json SonicSpec.Go
 
@@ -102,14 +103,27 @@ def namesOK : List (Option Field) → List Bytes → Bool
   | some f :: r, seen => validUtf8 f.name && !seen.contains f.name && namesOK r (f.name :: seen)
   | none :: _, _ => false
 
+/-- map entries listed in bytewise non-decreasing key order (the order of the wire syntax, and the order
+    SortMapKeys produces: the statement then needs no permutation) -/
+def keysSortedFrom : Option Bytes → List (GoVal × GoVal) → Bool
+  | _, [] => true
+  | none, (.str k, _) :: r => keysSortedFrom (some k) r
+  | some p, (.str k, _) :: r => bytesLe p k && keysSortedFrom (some k) r
+  | _, _ => false
+
 mutual
 /-- the sub-universe `roundtrip_partial` carries: booleans, integers in range, valid-UTF-8 strings,
-    pointers (to something that is not written as null), slices (not of bytes) and arrays of those -/
+    finite floats, pointers (to something that is not written as null), slices (not of bytes), arrays,
+    string-keyed maps listed in key order, plain structs -/
 def rtOK : GoType → GoVal → Bool
   | .bool, .bool _ => true
   | .int k, .int n => intInRange k n
   | .uint k, .uint n => natInRange k n
   | .str, .str s => validUtf8 s
+  | .f64, .f64 b => (fmtF64 b).isSome          -- finite (NaN and the infinities have no literal)
+  | .f32, .f32 b => (fmtF32 b).isSome
+  | .map .str _, .nil => true
+  | .map .str t, .map kvs => keysSortedFrom none kvs && rtOKM t kvs
   | .ptr _, .nil => true
   | .ptr t, .ptr v => rtOK t v && nn v
   | .sl t, .nil => !isU8 t
@@ -123,6 +137,11 @@ def rtOK : GoType → GoVal → Bool
 def rtOKL : GoType → List GoVal → Bool
   | _, [] => true
   | t, x :: xs => rtOK t x && rtOKL t xs
+/-- string keys of valid UTF-8, values carried -/
+def rtOKM : GoType → List (GoVal × GoVal) → Bool
+  | _, [] => true
+  | t, (.str k, v) :: r => validUtf8 k && rtOK t v && rtOKM t r
+  | _, _ => false
 /-- every declared field is kept and plain (no `,string`, `omitempty`, `omitzero`) and its value is carried -/
 def rtOKF : List (Option Field) → List GoVal → Bool
   | [], [] => true
@@ -226,6 +245,94 @@ theorem decF_fill (o : EncOpts) : ∀ (ks : List (Option Field)) (ms : List (Byt
           · simp at hg; subst hg; simp)
       simpa using key
 
+/-- entries `es` (key text, tree) decode value by value into `kvs'`, keys untouched -/
+inductive EntryDec (o : EncOpts) (t : GoType) : List (Bytes × JVal) → List (GoVal × GoVal) → Prop
+  | nil : EntryDec o t [] []
+  | cons {k : Bytes} {j : JVal} {v' : GoVal} {es : List (Bytes × JVal)} {kvs' : List (GoVal × GoVal)} :
+      validUtf8 k = true → decV t j = .ok v' → EntryDec o t es kvs' →
+      EntryDec o t ((k, j) :: es) ((.str k, v') :: kvs')
+
+/-- the key texts of `es` are the string keys of `kvs`, in order -/
+def KeysOf : List (GoVal × GoVal) → List (Bytes × JVal) → Prop
+  | [], [] => True
+  | (.str k, _) :: r, (k', _) :: es => k = k' ∧ KeysOf r es
+  | _, _ => False
+
+theorem keysSorted_sortedKV : ∀ (kvs : List (GoVal × GoVal)) (es : List (Bytes × JVal)) (p : Option Bytes),
+    KeysOf kvs es → keysSortedFrom p kvs = true →
+    SortedKV es ∧ (∀ q, p = some q → ∀ e ∈ es, bytesLe q e.1 = true) := by
+  intro kvs
+  induction kvs with
+  | nil =>
+    intro es p hk _
+    cases es with
+    | nil => exact ⟨by simp [SortedKV], fun _ _ e he => by cases he⟩
+    | cons _ _ => simp [KeysOf] at hk
+  | cons kv r ih =>
+    intro es p hk hs
+    obtain ⟨kk, v⟩ := kv
+    cases es with
+    | nil => cases kk <;> simp [KeysOf] at hk
+    | cons e es' =>
+      obtain ⟨k', j⟩ := e
+      cases kk with
+      | str k =>
+        simp only [KeysOf] at hk
+        obtain ⟨hkk, hrest⟩ := hk
+        subst hkk
+        have hs' : keysSortedFrom (some k) r = true := by
+          cases p with
+          | none => simpa [keysSortedFrom] using hs
+          | some q => simp only [keysSortedFrom, Bool.and_eq_true] at hs; exact hs.2
+        obtain ⟨i1, i2⟩ := ih es' (some k) hrest hs'
+        refine ⟨?_, ?_⟩
+        · simp only [SortedKV, List.pairwise_cons]
+          exact ⟨fun x hx => i2 k rfl x hx, i1⟩
+        · intro q hq x hx
+          subst hq
+          simp only [keysSortedFrom, Bool.and_eq_true] at hs
+          rcases List.mem_cons.mp hx with hx | hx
+          · subst hx; exact hs.1
+          · exact bytesLe_trans _ _ _ hs.1 (i2 k rfl x hx)
+      | _ => simp [KeysOf] at hk
+
+theorem sortKV_of_sorted : ∀ (es : List (Bytes × JVal)), SortedKV es → sortKV es = es := by
+  intro es
+  induction es with
+  | nil => intro _; rfl
+  | cons e r ih =>
+    intro h
+    simp only [SortedKV, List.pairwise_cons] at h
+    simp only [sortKV, ih h.2]
+    cases r with
+    | nil => rfl
+    | cons f r' =>
+      simp only [insertKV]
+      have : bytesLe e.1 f.1 = true := h.1 f (by simp)
+      simp [this]
+
+/-- decoding the quoted members of string-keyed entries gives back the entries -/
+theorem decM_entries (o : EncOpts) (t : GoType) : ∀ (es : List (Bytes × JVal)) (kvs' : List (GoVal × GoVal)),
+    EntryDec o t es kvs' → ∀ ms, keyBodies o .str es = .ok ms → decM .str t ms = .ok kvs' := by
+  intro es kvs' h
+  induction h with
+  | nil => intro ms hm; simp [keyBodies] at hm; subst hm; simp [decM]
+  | @cons k j v' es kvs' hv hd _ ih =>
+    intro ms hm
+    simp only [keyBodies] at hm
+    obtain ⟨b, h1, h2⟩ := except_bind_ok hm
+    obtain ⟨rs, h3, h4⟩ := except_bind_ok h2
+    injection h4 with h4; subst h4
+    have hb : b = quoteBody o.escapeHTML o.validateString k := by
+      simp [keyBody, isTextKey] at h1
+      exact h1.symm
+    have hu : unq b = some k := by
+      rw [hb]
+      cases hf : o.validateString
+      · exact unq_quoteBody_raw _ _
+      · rw [unq_quoteBody_fixed, coerce_valid hv]
+    simp [decM, hu, keyOfText, hd, ih rs h3, bind, Except.bind, pure, Except.pure]
+
 theorem zeroFields_length : ∀ (fs : List (String × Option Bytes × GoType)), (zeroFields fs).length = fs.length := by
   intro fs
   induction fs with
@@ -276,7 +383,8 @@ theorem roundtrip_all (o : EncOpts) :
         ∃ v', decV T j = .ok v' ∧ eqv o.noNullSliceOrMap v v' = true ∧ (nn v = true → j ≠ .null)) ∧
     (∀ (addr : Bool) (ks : List (Option Field)) (vs : List GoVal), ∀ ms, rtOKF ks vs = true → encF o addr ks vs = .ok ms →
         ∃ vs', FieldDec o ks ms vs' ∧ eqvL o.noNullSliceOrMap vs vs' = true) ∧
-    (∀ (_k _t : GoType) (_kvs : List (GoVal × GoVal)), True) ∧
+    (∀ (k t : GoType) (kvs : List (GoVal × GoVal)), ∀ es, k = .str → rtOKM t kvs = true → encM o k t kvs = .ok es →
+        ∃ kvs', EntryDec o t es kvs' ∧ eqvE o.noNullSliceOrMap kvs kvs' = true ∧ KeysOf kvs es) ∧
     (∀ (addr : Bool) (t : GoType) (xs : List GoVal), ∀ js, rtOKL t xs = true → encL o addr t xs = .ok js →
         ∃ vs', decL t js = .ok vs' ∧ eqvL o.noNullSliceOrMap xs vs' = true ∧ js.length = xs.length) := by
   apply encV.mutual_induct o
@@ -284,7 +392,8 @@ theorem roundtrip_all (o : EncOpts) :
         ∃ v', decV T j = .ok v' ∧ eqv o.noNullSliceOrMap v v' = true ∧ (nn v = true → j ≠ .null))
     (motive_2 := fun addr ks vs => ∀ ms, rtOKF ks vs = true → encF o addr ks vs = .ok ms →
         ∃ vs', FieldDec o ks ms vs' ∧ eqvL o.noNullSliceOrMap vs vs' = true)
-    (motive_3 := fun _ _ _ => True)
+    (motive_3 := fun k t kvs => ∀ es, k = .str → rtOKM t kvs = true → encM o k t kvs = .ok es →
+        ∃ kvs', EntryDec o t es kvs' ∧ eqvE o.noNullSliceOrMap kvs kvs' = true ∧ KeysOf kvs es)
     (motive_4 := fun addr t xs => ∀ js, rtOKL t xs = true → encL o addr t xs = .ok js →
         ∃ vs', decL t js = .ok vs' ∧ eqvL o.noNullSliceOrMap xs vs' = true ∧ js.length = xs.length)
   case case1 =>
@@ -303,6 +412,97 @@ theorem roundtrip_all (o : EncOpts) :
     refine ⟨.uint n, ?_, by simp [eqv], fun _ hh => by cases hh⟩
     simp only [decV, parseIntLit_natDec]
     simp [hrt]
+  case case4 =>
+    intro addr b j hrt h
+    simp only [rtOK] at hrt
+    cases hf : fmtF64 b with
+    | none => rw [hf] at hrt; cases hrt
+    | some l =>
+      have hshape := numFmtF64_shape hf
+      have hne : (l == nullLit) = false := by
+        obtain ⟨c, tl, hl, hc⟩ := hshape.head
+        subst hl
+        rcases hc with hc | hc
+        · subst hc; simp [nullLit]
+        · have : c ≠ 110 := by intro hh; subst hh; exact absurd hc (by decide)
+          simp [nullLit, this]
+      simp only [encV, hf, floatLit, Except.map, hne, Bool.false_eq_true, if_false] at h
+      injection h with h; subst h
+      have hrt2 : Num.toF64Bits l = .ok b := by
+        have := Num.fmtBits_roundtrip Num.f64 Num.thresh64 b.toNat l hf
+        simp [Num.toF64Bits, this, Except.map]
+      exact ⟨.f64 b, by simp [decV, hrt2], by simp [eqv], fun _ hh => by cases hh⟩
+  case case5 =>
+    intro addr b j hrt h
+    simp only [rtOK] at hrt
+    cases hf : fmtF32 b with
+    | none => rw [hf] at hrt; cases hrt
+    | some l =>
+      have hshape := numFmtF32_shape hf
+      have hne : (l == nullLit) = false := by
+        obtain ⟨c, tl, hl, hc⟩ := hshape.head
+        subst hl
+        rcases hc with hc | hc
+        · subst hc; simp [nullLit]
+        · have : c ≠ 110 := by intro hh; subst hh; exact absurd hc (by decide)
+          simp [nullLit, this]
+      simp only [encV, hf, floatLit, Except.map, hne, Bool.false_eq_true, if_false] at h
+      injection h with h; subst h
+      have hrt2 : Num.toF32Bits l = .ok b := by
+        have := Num.fmtBits_roundtrip Num.f32 Num.thresh32 b.toNat l hf
+        simp [Num.toF32Bits, this, Except.map]
+      exact ⟨.f32 b, by simp [decV, hrt2], by simp [eqv], fun _ hh => by cases hh⟩
+  case case22 =>
+    intro addr k t hk j hrt h
+    simp only [encV, hk, if_true] at h
+    injection h with h; subst h
+    cases k <;> first | (simp [rtOK] at hrt; done) | skip
+    unfold nilMap
+    split
+    · rename_i hn
+      exact ⟨.map [], by simp [decV, decM, Except.map], by simp [eqv, hn], fun hh => by simp [nn] at hh⟩
+    · exact ⟨.nil, by simp [decV], by simp [eqv], fun hh => by simp [nn] at hh⟩
+  case case24 =>
+    intro addr k t kvs hk ih j hrt h
+    cases k <;> first | (simp [rtOK] at hrt; done) | skip
+    simp only [rtOK, Bool.and_eq_true] at hrt
+    simp only [encV, hk, if_true] at h
+    obtain ⟨es, h1, h2⟩ := except_bind_ok h
+    obtain ⟨ms, h3, h4⟩ := except_map_ok h2
+    subst h4
+    obtain ⟨kvs', e1, e2, e3⟩ := ih es rfl hrt.2 h1
+    have hsorted := (keysSorted_sortedKV kvs es none e3 hrt.1).1
+    have hsame : (if o.sortMapKeys = true then sortKV es else es) = es := by
+      split
+      · exact sortKV_of_sorted es hsorted
+      · rfl
+    rw [hsame] at h3
+    have hdec := decM_entries o t es kvs' e1 ms h3
+    exact ⟨.map kvs', by simp [decV, hdec, Except.map], by simpa [eqv] using e2, fun _ hh => by cases hh⟩
+  case case52 =>
+    intro k t es _ _ h
+    simp only [encM] at h
+    injection h with h; subst h
+    exact ⟨[], EntryDec.nil, by simp [eqvE], trivial⟩
+  case case53 =>
+    intro k t a b r hk es _ _ h
+    simp only [encM, hk] at h
+    cases h
+  case case54 =>
+    intro k t a b r ks hk ih2 ih1 es hkt hrt h
+    subst hkt
+    cases a <;> first | (simp [rtOKM] at hrt; done) | skip
+    rename_i key
+    simp only [rtOKM, Bool.and_eq_true] at hrt
+    simp only [keyText] at hk
+    injection hk with hk; subst hk
+    simp only [encM, keyText] at h
+    obtain ⟨j, h1, h2⟩ := except_bind_ok h
+    obtain ⟨rs, h3, h4⟩ := except_bind_ok h2
+    injection h4 with h4; subst h4
+    obtain ⟨v', b1, b2, _⟩ := ih2 j hrt.1.2 h1
+    obtain ⟨kvs', c1, c2, c3⟩ := ih1 rs rfl hrt.2 h3
+    exact ⟨(.str key, v') :: kvs', EntryDec.cons hrt.1.1 b1 c1, by simp [eqvE, eqv, b2, c2], ⟨rfl, c3⟩⟩
   case case6 =>
     intro addr s j hrt h
     simp only [encV] at h; injection h with h; subst h
@@ -431,7 +631,7 @@ theorem roundtrip_all (o : EncOpts) :
     simp [decL, b1, c1, bind, Except.bind, pure, Except.pure]
   all_goals first
     | (intros; trivial)
-    | (intros; rename_i h; simp only [encV, *] at h; cases h; done)
+    | (intros; rename_i h; simp only [encV, encM, *] at h; cases h; done)
     | (intros; rename_i hrt _; simp [rtOK] at hrt; done)
     | (intros; rename_i hrt _ ; exact absurd hrt (by simp [rtOK]))
 
